@@ -793,6 +793,18 @@ def task_version_dispatch(pr, repo):
         r = ex.call(ex.getattr(v, 'get_hydrogen_bond_parameters'), [a1, a2], {})
         ctx.oblige('VD: side-chain H-bond parameters = (sidechain_interaction, cut-offs of the two GROUP TYPES from the pairwise table)',
                    len(calls) == 1 and set(calls[0]) == {'COO', 'HIS'} and r[0] is dmax and len(r[1]) == 2)
+        # a second Version object made from OTHER parameters (another run in the same process) answers from its own parameters
+        dmax2 = R('sidechain_interaction_2')
+        cut2 = record('cutoffs2', None)
+        cut2.attrs['get_value'] = Builtin('get_value2', lambda ex_, a, b: [R('c0_2'), R('c1_2')])
+        params2 = record('P2', None, sidechain_interaction=dmax2, sidechain_cutoffs=cut2, backbone_CO_hydrogen_bond={},
+                         backbone_NH_hydrogen_bond={})
+        v2 = ex.instantiate(repo.cls(VM + 'VersionA'), [params2], {})
+        r2 = ex.call(ex.getattr(v2, 'get_hydrogen_bond_parameters'), [a1, a2], {})
+        r1b = ex.call(ex.getattr(v, 'get_hydrogen_bond_parameters'), [a1, a2], {})
+        ctx.oblige('VD: H-bond parameters come from the parameters of THIS Version object - a second object built from other '
+                   'parameters in the same process returns its own maximum and cut-offs, and the first keeps its own',
+                   r2[0] is dmax2 and r2[1][0] == R('c0_2') and r1b[0] is dmax and r1b[1][0] == R('c0'))
         for bt, gt, table in (('BBC', 'HIS', co), ('BBN', 'COO', nh), ('BBC', 'COO', None), ('BBN', 'HIS', None), ('COO', 'HIS', None)):
             bb, at = record('bb', None, group_type=bt), record('at', None, group_type=gt)
             r = ex.call(ex.getattr(v, 'get_backbone_hydrogen_bond_parameters'), [bb, at], {})
@@ -812,7 +824,9 @@ def run(pr, repo):
                  (task_ion_backbone, ()), (task_iterative, ()), (task_exceptions, ()), (task_exception_dispatch, ()), (task_version_dispatch, ()),
                  # the signs fixed when a determinant is created must survive the temporary swaps of the coupling analysis:
                  # every swap is undone exactly (C02/C15 obligations on swap_interactions / transfer_determinant)
-                 (C02.task_swap, ()), (C02.task_swap_once, ())])
+                 (C02.task_swap, ()), (C02.task_swap_once, ()),
+                 # ... and the conformation average, which must leave the conformations' own determinants untouched
+                 (C02.task_average, ())])
     bounded(pr)
 
 
